@@ -98,6 +98,7 @@ type Engine struct {
 	knownHits map[string]string // known-finding id -> message (this path)
 	violation *Violation
 	nondetMapOrder bool
+	mapOrderBudget int // <0: unlimited (all permutations of every range); k>0: at most k perturbed ranges per path
 	stdout    strings.Builder
 
 	// statistics
